@@ -508,7 +508,7 @@ def gen_C15(rng, tier):
 def gen_C07(rng, tier):
     out = gen_C15(rng, tier)
     out = [(n, s.replace("files\n", "files\nread_all s=U e=U\n")) for n, s in out]
-    return assets_battery(tier) + out
+    return assets_battery(tier) + noncanonical_battery(rng, tier) + out
 
 
 def torn_tail_battery(rng):
@@ -1420,6 +1420,71 @@ def gen_C16(rng, tier):
                 h.reopen()
         if marker_free(h.p, h.ts):
             out.append(("audit", h.script()))
+    return out
+
+
+def _gen_consts():
+    import re
+    src = open(os.path.join(os.path.dirname(os.path.abspath(__file__)), "..", "lean", "BS", "Generated", "Consts.lean")).read()
+    def get(name):
+        m = re.search(r"def %s : List UInt8 := \[(.*?)\]" % name, src)
+        return bytes(int(x) for x in m.group(1).split(",") if x.strip())
+    return {k: get(k) for k in ("textPre", "textMid", "textPost", "lineEnds")}
+
+
+def ref_file(p, user, entries, extra_sections=()):
+    """a v1 file built from the documented layout alone (third implementation, in Python): header,
+    then lines; a full-timestamp section before the first entry, wherever the delta does not fit,
+    and additionally before every entry whose index is in `extra_sections` (legal, not canonical)"""
+    c = _gen_consts()
+    text = c["textPre"] + b"1" + c["textMid"] + str(p).encode() + c["textPost"]
+    inner = len(text).to_bytes(4, "little") + text + user
+    out = bytearray(len(inner).to_bytes(2, "little") + c["lineEnds"] + inner)
+    ls = p + 2
+    k = min(p, 4)
+    full = None
+    for i, (ts, pl) in enumerate(entries):
+        if full is None or ts - full > MAXD or i in extra_sections:
+            t = ts.to_bytes(8, "little")
+            sec = b"\xff\xff" + t[:k] + bytes(p - k) + b"\xff\xff" + t[k:2 * k] + bytes(p - k)
+            rest = t[2 * k:]
+            nraw = (len(rest) + ls - 1) // ls
+            sec += rest + bytes(nraw * ls - len(rest))
+            out += sec
+            full = ts
+        out += (ts - full).to_bytes(2, "little") + pl
+    return bytes(out)
+
+
+def noncanonical_battery(rng, tier):
+    """C07, reverse direction beyond what the library itself writes: files laid out as documented
+    but NOT canonical (sections where none is needed, also several in a row), built by an independent
+    Python encoder, planted without an index; the specification decodes them with its reference
+    decoder; the library has to read exactly that, and has to be able to continue the file"""
+    out = []
+    for i in range(8 if tier == "quick" else 60):
+        p = [0, 1, 2, 3, 4, 5, 8, 12][i % 8]
+        n = rng.randrange(1, 40)
+        t = rng.choice([0, 5, 1000, 1 << 33])
+        entries = []
+        for _ in range(n):
+            entries.append((t, bytes(rng.randrange(256) for _ in range(p))))
+            t += rng.choice([1, 2, 7, 300, MAXD, MAXD + 1, 200000])
+        if not marker_free(p, [e[0] for e in entries]):
+            continue
+        extra = {j for j in range(n) if rng.random() < 0.3}
+        if i % 4 == 0:
+            extra = set(range(n))            # every line in its own section
+        user = bytes(rng.randrange(256) for _ in range(rng.choice([0, 3, 40])))
+        f = ref_file(p, user, entries, extra)
+        last = entries[-1][0]
+        ops = ["put data " + hexs(f),
+               "open p=any hdr=any caches=- cb=none ext=0", "len", "range", "payload_size", "read_all s=U e=U",
+               "read_first_n n=3 s=U e=U", "last_line", f"read_all s=I:{entries[n // 2][0]} e=U",
+               f"push ts={last + 1} pl={hexs(bytes(p))}", f"push ts={last + 1 + MAXD + 5} pl={hexs(bytes([7] * p))}",
+               "read_all s=U e=U", "len", "close",
+               "open p=any hdr=any caches=- cb=none ext=0", "read_all s=U e=U", "len", "range", "close"]
+        out.append((f"noncanonical-p{p}", "\n".join(ops) + "\n"))
     return out
 
 
